@@ -2,6 +2,7 @@ import Bmc.Proofs.C10
 import Bmc.Proofs.GenLoops.BuildAndSend
 import Bmc.Proofs.GenLoops.BuildAndSendCommand
 import Bmc.Proofs.GenLoops.BuildAndSendPayload
+import Bmc.Proofs.EndToEnd.SessionC03
 #print axioms Bmc.Proofs.C10.session_send_refines
 #print axioms Bmc.Proofs.C10.lost_in_session_stops
 #print axioms Bmc.Proofs.C10.final_is_not_temporary
@@ -22,3 +23,4 @@ import Bmc.Proofs.GenLoops.BuildAndSendPayload
 #print axioms Bmc.Proofs.GenLoops.V2Sessionless_SendCommand_events_eq
 #print axioms Bmc.Proofs.GenLoops.V2Sessionless_buildAndSendPayload_gen_eq
 #print axioms Bmc.Proofs.GenLoops.V2Sessionless_buildAndSendPayload_serialize_error
+#print axioms Bmc.Proofs.EndToEnd.generated_loop_datagrams
